@@ -34,7 +34,9 @@ def stepValSet (st : VSState) (a : Acc) (s : Step) : VSState × Acc :=
     let impl := toVals ((s.ob "accum").pairs "out")
     let a := a.cmp s.lineNo "accum.out" (fmtPairs (ofVals (accumulate st.rankOf cur new))) (fmtPairs (ofVals impl))
     let a := if cur.length > 0 && new.length > 0 then { a with nontrivial := a.nontrivial + 1 } else a
-    (st, (a.tag "accum").spec s.lineNo "C01.accumulate-effect" (Spec.C01.accumOK cur new impl))
+    let a := (a.tag "accum").spec s.lineNo "C01.accumulate-effect" (Spec.C01.accumOK cur new impl)
+    -- C18: 13 executions of the same call gave the same ordered result
+    (st, a.spec s.lineNo "C18.accumulate-deterministic" ((s.ob "accum").get "det" != "0") s!"out={(s.ob "accum").get "out"}")
   | "cinit" =>
     let ini := toVals (s.op.pairs "initial")
     let o := s.ob "cinit"
